@@ -400,8 +400,8 @@ def run(ctx: Ctx):
     if not os.path.exists(os.path.join(ROOT, "lean", ".lake", "build", "bin", "isladrv")):
         return "infra"
     quick = ctx.tier == "quick"
-    problems = make_problems(ctx, 110 if quick else 2500)
-    for pb, res in run_all(problems, wall_limit=60.0, deadline=ctx.t0 + (170 if quick else 5400)):
+    problems = make_problems(ctx, 110 if quick else 1200)
+    for pb, res in run_all(problems, wall_limit=60.0, deadline=ctx.t0 + (170 if quick else 2400)):
         ctx.count("origin", pb["origin"])
         ctx.count("configuration", "start_symbol other than <start>" if pb.get("start_symbol") else "default start symbol")
         evaluate_problem(ctx, pb, res)
